@@ -1,4 +1,7 @@
 ----------------------------- MODULE MC_DictFile -----------------------------
 EXTENDS DictFile
 VocabC == {<<"a">>, <<"A">>, <<"b">>}
+\* no file; an empty file; files with one or two words, terminated or not
+InitDisksC == {Absent, File(<<>>), File(<< <<"b">> >>), OpenFile(<< <<"b">> >>), File(<< <<"b">>, <<"c">> >>), OpenFile(<< <<"b">>, <<"c">> >>)}
+OnlyAbsent == {Absent}
 =============================================================================
